@@ -361,3 +361,294 @@ Section StackHistory.
     intros i D HD Hi. exact (proj1 (stack_history_keeps_data ops os w' i D HD Hi)).
   Qed.
 End StackHistory.
+
+(** * Sharded cache directories: whole histories, grow-only form.
+    Any sequence of sharded set / put / get on one sharded cache, each under its
+    own oracle (any fault; any shard chosen by the load estimates and the probe;
+    any shard maintained afterwards).  The invariant: every entry of every shard
+    directory under a valid key name is unbound or bound to an inode ALLOWED for
+    that name, where a write adds its source to the name's list.  Every hit is a
+    descriptor on an allowed inode: a sharded cache never serves a value that was
+    written for another key, from whichever of the key's two shards it comes. *)
+From Kismet Require Import Proofs.KvShard Proofs.KvShardOthers Proofs.KvShardKey.
+
+Inductive shop := ShWrite (which : bool) (k : key) (v : path) | ShGet (k : key).
+
+Section ShardedHistory.
+  Variable dir : path.
+  Variable nsh total h : N.
+  Hypothesis Hdir : plainp dir = true.
+  Notation entry j n := ((dir ++ [format_id j]) ++ [n]).
+
+  Definition shop_wf (op : shop) : Prop :=
+    match op with
+    | ShWrite _ k v => valid_name (k_name k) = true /\ plainp v = true /\ (forall q, v <> dir ++ q) /\ (forall q, dir <> v ++ q)
+    | ShGet k => valid_name (k_name k) = true
+    end.
+
+  Definition HInvS (al : allowed) (f : fs) : Prop :=
+    forall n j, valid_name n = true ->
+      name_of f (entry j n) = None \/ exists i, name_of f (entry j n) = Some i /\ In i (al n).
+
+  Fixpoint shhist (ops : list shop) (os : list oracle) (w : world) (al : allowed) : Prop :=
+    match ops, os with
+    | op :: ops', o :: os' =>
+        match op with
+        | ShGet k =>
+            let '(r, w', _, _) := run (sh_get dir nsh total k) w o in
+            (forall fd, r = Ok (Some fd) -> exists i, fdino (w_fs w') fd = Some i /\ In i (al (k_name k))) /\
+            shhist ops' os' w' al
+        | ShWrite which k v =>
+            let src := name_of (w_fs w) v in
+            let '(_, w', _, _) := run (sh_publish (if which then cd_set else cd_put) h dir nsh total k v) w o in
+            shhist ops' os' w' (upd al (k_name k) (olist src ++ al (k_name k)))
+        end
+    | _, _ => True
+    end.
+
+  Lemma sh_write_step (which : bool) k v w o al :
+    valid_name (k_name k) = true -> plainp v = true -> (forall q, v <> dir ++ q) -> (forall q, dir <> v ++ q) ->
+    names_plain (w_fs w) -> HInvS al (w_fs w) ->
+    let src := name_of (w_fs w) v in
+    let '(_, w', _, _) := run (sh_publish (if which then cd_set else cd_put) h dir nsh total k v) w o in
+    names_plain (w_fs w') /\ HInvS (upd al (k_name k) (olist src ++ al (k_name k))) (w_fs w').
+  Proof.
+    intros Hk Hv Hout Hnanc Hpl HI src.
+    pose proof (run_names_plain (sh_publish (if which then cd_set else cd_put) h dir nsh total k v) w o Hpl) as Hnp.
+    (* entries of other names *)
+    assert (Hoth : forall n j, valid_name n = true -> n <> k_name k ->
+              let '(_, w', _, _) := run (sh_publish (if which then cd_set else cd_put) h dir nsh total k v) w o in
+              name_of (w_fs w') (entry j n) = name_of (w_fs w) (entry j n) \/ name_of (w_fs w') (entry j n) = None).
+    { intros n j Hn Hne.
+      assert (Hx : plainp (entry j n) = true) by (apply (dst_plain (shard_cdir dir nsh total j) n); [apply (dcd_plain dir nsh total Hdir)|exact Hn]).
+      assert (Hxv : entry j n <> v) by (intros E; rewrite <- app_assoc in E; exact (Hout _ (eq_sym E))).
+      assert (Hxd : forall sid, entry j n <> cd_base (shard_cdir dir nsh total sid) ++ [k_name k]).
+      { intros sid E. cbn [cd_base shard_cdir] in E. apply app_inj_tail in E. destruct E as (_ & E). contradiction. }
+      assert (Hxl : List.length dir + 1 < List.length (entry j n)) by (rewrite !app_length; cbn; lia).
+      exact (sharded_others_keep_or_vanish dir nsh total k v Hdir Hk Hv (entry j n) Hx Hxv Hxd Hxl (w_fs w) which h w o eq_refl Hpl). }
+    (* entries of the key's own name, in any shard directory *)
+    assert (Hkey : forall j i0, (src = Some i0 \/ src = None) ->
+              let '(_, w', _, _) := run (sh_publish (if which then cd_set else cd_put) h dir nsh total k v) w o in
+              name_of (w_fs w') (entry j (k_name k)) = name_of (w_fs w) (entry j (k_name k)) \/ name_of (w_fs w') (entry j (k_name k)) = None \/
+              name_of (w_fs w') (entry j (k_name k)) = Some i0).
+    { intros j i0 Hs.
+      assert (Hy : plainp (entry j (k_name k)) = true) by (apply (dst_plain (shard_cdir dir nsh total j) (k_name k)); [apply (dcd_plain dir nsh total Hdir)|exact Hk]).
+      assert (Hyv : entry j (k_name k) <> v) by (intros E; rewrite <- app_assoc in E; exact (Hout _ (eq_sym E))).
+      assert (Hyl : List.length dir + 1 < List.length (entry j (k_name k))) by (rewrite !app_length; cbn; lia).
+      exact (sharded_entry_old_none_or_source dir nsh total k v Hdir Hk Hv Hout Hnanc (entry j (k_name k)) Hy Hyv Hyl i0 _ which h w o Hpl Hs eq_refl). }
+    destruct (run (sh_publish (if which then cd_set else cd_put) h dir nsh total k v) w o) as [[[r w'] o'] tr].
+    split; [exact Hnp|]. intros n j Hn.
+    destruct (string_dec n (k_name k)) as [->|Hne].
+    - rewrite upd_same.
+      assert (Hb : name_of (w_fs w') (entry j (k_name k)) = name_of (w_fs w) (entry j (k_name k)) \/ name_of (w_fs w') (entry j (k_name k)) = None \/
+                   (src <> None /\ name_of (w_fs w') (entry j (k_name k)) = src)).
+      { destruct src as [i0|] eqn:Hsrc.
+        - destruct (Hkey j i0 (or_introl eq_refl)) as [H|[H|H]]; [tauto|tauto|right; right; split; [discriminate|exact H]].
+        - destruct (Hkey j 0 (or_intror eq_refl)) as [Ha|[Ha|Ha]]; [tauto|tauto|].
+          destruct (Hkey j 1 (or_intror eq_refl)) as [Hb|[Hb|Hb]]; [tauto|tauto|]. rewrite Ha in Hb. discriminate. }
+      destruct Hb as [H|[H|(Hs & H)]].
+      + rewrite H. destruct (HI (k_name k) j Hn) as [H0|(i & Hi & Hin)]; [left; exact H0|right; exists i; split; [exact Hi|apply in_or_app; right; exact Hin]].
+      + left. exact H.
+      + right. destruct src as [i0|]; [|contradiction]. exists i0. split; [exact H|cbn; left; reflexivity].
+    - rewrite (upd_other al (k_name k) _ n Hne). destruct (Hoth n j Hn Hne) as [H|H]; [rewrite H; apply HI, Hn|left; exact H].
+  Qed.
+
+  Theorem sharded_history_refines_map : forall ops os w al,
+    Forall shop_wf ops -> names_plain (w_fs w) -> HInvS al (w_fs w) -> shhist ops os w al.
+  Proof.
+    induction ops as [|op ops IH]; intros os w al Hwf Hpl HI; [exact I|].
+    destruct os as [|o os]; [destruct op; exact I|].
+    inversion Hwf as [|? ? Hop Hrest]; subst.
+    destruct op as [which k v|k]; cbn [shhist shop_wf] in *.
+    - destruct Hop as (Hk & Hv & Hout & Hnanc).
+      pose proof (sh_write_step which k v w o al Hk Hv Hout Hnanc Hpl HI) as H. cbn zeta in H.
+      destruct (run (sh_publish (if which then cd_set else cd_put) h dir nsh total k v) w o) as [[[r w'] o'] tr]. destruct H as (Hnp & HI1).
+      apply IH; assumption.
+    - destruct (shard_ids (k_hash k) (k_sec k) nsh) as [a b] eqn:Hids.
+      pose proof (sharded_get_reads dir nsh total k Hdir Hop a b Hids (w_fs w) w o eq_refl Hpl) as H.
+      pose proof (run_names_plain (sh_get dir nsh total k) w o Hpl) as Hnp.
+      destruct (run (sh_get dir nsh total k) w o) as [[[r w'] o'] tr]. destruct H as (Hsame & Hhit).
+      split.
+      + intros fd Hr. destruct (Hhit fd Hr) as ([Hf|Hf] & Hne).
+        * destruct (HI (k_name k) a Hop) as [H0|(i & Hi & Hin)]; [rewrite Hf in Hne; contradiction|]. exists i. split; [rewrite Hf; exact Hi|exact Hin].
+        * destruct (HI (k_name k) b Hop) as [H0|(i & Hi & Hin)]; [rewrite Hf in Hne; contradiction|]. exists i. split; [rewrite Hf; exact Hi|exact Hin].
+      + apply IH; [exact Hrest|exact Hnp|]. intros n j Hn. rewrite Hsame. apply HI, Hn.
+  Qed.
+
+  (** The canonical starting abstraction: for each name, every inode bound to a
+      path that ends with it. *)
+  Definition al_of_names (f : fs) : allowed :=
+    fun n => map snd (filter (fun pi => String.eqb (last (fst pi) EmptyString) n) (names f)).
+
+  Lemma alookup_In (p : path) (l : list (path * nat)) (i : nat) : alookup path_eqb p l = Some i -> In (p, i) l.
+  Proof.
+    induction l as [|[q j] l IH]; cbn [alookup]; [discriminate|].
+    destruct (path_eqb p q) eqn:E; [intros H; injection H as <-; apply path_eqb_eq in E; subst q; left; reflexivity|intros H; right; apply IH, H].
+  Qed.
+
+  Lemma HInvS_al_of_names f : HInvS (al_of_names f) f.
+  Proof.
+    intros n j _. destruct (name_of f (entry j n)) as [i|] eqn:Hb; [|left; reflexivity].
+    right. exists i. split; [reflexivity|]. unfold al_of_names. apply in_map_iff. exists (entry j n, i). split; [reflexivity|].
+    apply filter_In. split; [exact (alookup_In _ _ _ Hb)|]. cbn [fst]. rewrite last_last. apply String.eqb_refl.
+  Qed.
+End ShardedHistory.
+
+(** * The public stack API over a SHARDED write cache (no read-only caches, no
+    checker): set / put / set_temp_file / put_temp_file / get / touch, grow-only form. *)
+Section StackShardedHistory.
+  Variable cfg : stack_cfg.
+  Variable dir : path.
+  Variable nsh total : N.
+  Hypothesis Hw : s_writer cfg = Some (FSharded dir nsh total).
+  Hypothesis Hrd : s_readers cfg = [].
+  Hypothesis Hck : s_checker cfg = None.
+  Hypothesis Hdir : plainp dir = true.
+  Notation entry j n := ((dir ++ [format_id j]) ++ [n]).
+
+  Definition ssop_wf (op : sop) : Prop :=
+    match op with
+    | SWrite _ k v => valid_name (k_name k) = true /\ plainp v = true /\ (forall q, v <> dir ++ q) /\ (forall q, dir <> v ++ q)
+    | SGet k | STouch k => valid_name (k_name k) = true
+    end.
+
+  Fixpoint sshist (ops : list sop) (os : list oracle) (w : world) (al : allowed) : Prop :=
+    match ops, os with
+    | op :: ops', o :: os' =>
+        match op with
+        | SGet k =>
+            let '(r, w', _, _) := run (cache_get cfg k) w o in
+            (forall fd, r = Ok (Some fd) -> exists i, fdino (w_fs w') fd = Some i /\ In i (al (k_name k))) /\
+            sshist ops' os' w' al
+        | STouch k =>
+            let '(_, w', _, _) := run (cache_touch cfg k) w o in sshist ops' os' w' al
+        | SWrite how k v =>
+            let src := name_of (w_fs w) v in
+            let '(_, w', _, _) := run (w_prog cfg how k v) w o in
+            sshist ops' os' w' (upd al (k_name k) (olist src ++ al (k_name k)))
+        end
+    | _, _ => True
+    end.
+
+  (** the two class monitors accept the stack-level writers *)
+  Section Writer.
+    Variable k : key.
+    Variable v : path.
+    Hypothesis Hk : valid_name (k_name k) = true.
+    Hypothesis Hv : plainp v = true.
+    Hypothesis Hout : forall q, v <> dir ++ q.
+    Hypothesis Hnanc : forall q, dir <> v ++ q.
+
+    Lemma class_w_prog {S0} (m : S0 -> event -> option S0) (ok : call -> bool) (s0 : S0) how :
+      (forall c, rebind_paths c = [] -> ok c = true) ->
+      (forall (s : S0) c r, True -> ok c = true -> exists s', m s (EvCall c r) = Some s' /\ True) ->
+      (forall (s : S0) ev, True -> match ev with EvCall _ _ => True | _ => exists s', m s ev = Some s' /\ True end) ->
+      ok (CUnlink v) = true ->
+      (forall (which : bool) (s : S0), wpv m (sh_publish (if which then cd_set else cd_put) (s_handle cfg) dir nsh total k v) (fun _ _ => True) s) ->
+      wpv m (w_prog cfg how k v) (fun _ _ => True) s0.
+    Proof.
+      intros Hnr Hcall Hsil Hu Hpub.
+      assert (Hcls : forall {A} (p : prog A) s, allc ok p anyc -> wpv m p (fun _ _ => True) s).
+      { intros A p s H. eapply wpv_mono; [|apply (gclass m (fun _ => True) ok Hcall Hsil p anyc H s I)]. auto. }
+      assert (Hwi : forall which s, wpv m (write_impl which cfg k v) (fun _ _ => True) s).
+      { intros which s. unfold write_impl. rewrite Hw. destruct which; cbn [f_set f_put]; [apply (Hpub true)|apply (Hpub false)]. }
+      destruct how as [| |fd|fd]; cbn [w_prog]; unfold cache_set, cache_put, cache_write_temp; apply wpv_try.
+      1-2: (eapply wpv_mono; [|apply (Hcls _ _ s0 (gc_maybe_sync_path ok Hnr cfg v))]); intros [u|e|] s1 _; try exact I; apply Hwi.
+      all: (eapply wpv_mono; [|apply (Hcls _ _ s0 (gc_finalize v fd ok Hnr Hu (s_autosync cfg)))]); intros [u|e|] s1 _; try exact I.
+      all: apply wpv_bind; (eapply wpv_mono; [|apply Hwi]); intros r s2 _.
+      all: (eapply wpv_mono; [|apply (Hcls _ (quiet (CUnlink v) ;;; Ret r) s2)]); [auto|].
+      all: unfold quiet; allc_auto; try (apply allc_call; exact Hu).
+    Qed.
+  End Writer.
+
+  Lemma ssh_write_step how k v w o al :
+    valid_name (k_name k) = true -> plainp v = true -> (forall q, v <> dir ++ q) -> (forall q, dir <> v ++ q) ->
+    names_plain (w_fs w) -> HInvS dir al (w_fs w) ->
+    let src := name_of (w_fs w) v in
+    let '(_, w', _, _) := run (w_prog cfg how k v) w o in
+    names_plain (w_fs w') /\ HInvS dir (upd al (k_name k) (olist src ++ al (k_name k))) (w_fs w').
+  Proof.
+    intros Hk Hv Hout Hnanc Hpl HI src.
+    pose proof (run_names_plain (w_prog cfg how k v) w o Hpl) as Hnp.
+    assert (Hoth : forall n j, valid_name n = true -> n <> k_name k ->
+              let '(_, w', _, _) := run (w_prog cfg how k v) w o in
+              name_of (w_fs w') (entry j n) = name_of (w_fs w) (entry j n) \/ name_of (w_fs w') (entry j n) = None).
+    { intros n j Hn Hne.
+      assert (Hx : plainp (entry j n) = true) by (apply (dst_plain (shard_cdir dir nsh total j) n); [apply (dcd_plain dir nsh total Hdir)|exact Hn]).
+      assert (Hxv : entry j n <> v) by (intros E; rewrite <- app_assoc in E; exact (Hout _ (eq_sym E))).
+      assert (Hxd : forall sid, entry j n <> cd_base (shard_cdir dir nsh total sid) ++ [k_name k]).
+      { intros sid E. cbn [cd_base shard_cdir] in E. apply app_inj_tail in E. destruct E as (_ & E). contradiction. }
+      assert (Hxl : List.length dir + 1 < List.length (entry j n)) by (rewrite !app_length; cbn; lia).
+      refine (sharded_others_gen (entry j n) Hx (w_fs w) (w_prog cfg how k v) _ w o _ eq_refl Hpl).
+      apply (class_w_prog k v (xs_step (entry j n)) (xcls (entry j n)) tt how (xcls_nr (entry j n)) (xs_call (entry j n)) (xs_sil (entry j n))).
+      - apply xcls_unlink, Hv.
+      - intros which []. apply (xs_sh_publish dir nsh total k v Hdir Hk Hv (entry j n) Hx Hxv Hxd Hxl which). }
+    assert (Hkey : forall j i0, (src = Some i0 \/ src = None) ->
+              let '(_, w', _, _) := run (w_prog cfg how k v) w o in
+              name_of (w_fs w') (entry j (k_name k)) = name_of (w_fs w) (entry j (k_name k)) \/ name_of (w_fs w') (entry j (k_name k)) = None \/
+              name_of (w_fs w') (entry j (k_name k)) = Some i0).
+    { intros j i0 Hs.
+      assert (Hy : plainp (entry j (k_name k)) = true) by (apply (dst_plain (shard_cdir dir nsh total j) (k_name k)); [apply (dcd_plain dir nsh total Hdir)|exact Hk]).
+      assert (Hyv : entry j (k_name k) <> v) by (intros E; rewrite <- app_assoc in E; exact (Hout _ (eq_sym E))).
+      assert (Hyl : List.length dir + 1 < List.length (entry j (k_name k))) by (rewrite !app_length; cbn; lia).
+      refine (sharded_entry_gen v Hv (entry j (k_name k)) Hy Hyv i0 _ (w_prog cfg how k v) _ w o _ Hpl Hs eq_refl).
+      apply (class_w_prog k v (ys_step v (entry j (k_name k))) (ycls v (entry j (k_name k))) tt how (ycls_nr v (entry j (k_name k))) (ys_call v (entry j (k_name k))) (ys_sil v (entry j (k_name k)))).
+      - exact Hv.
+      - intros which []. apply (ys_sh_publish dir nsh total k v Hdir Hk Hv Hout Hnanc (entry j (k_name k)) Hy Hyl which). }
+    destruct (run (w_prog cfg how k v) w o) as [[[r w'] o'] tr].
+    split; [exact Hnp|]. intros n j Hn.
+    destruct (string_dec n (k_name k)) as [->|Hne].
+    - rewrite upd_same.
+      assert (Hb : name_of (w_fs w') (entry j (k_name k)) = name_of (w_fs w) (entry j (k_name k)) \/ name_of (w_fs w') (entry j (k_name k)) = None \/
+                   (src <> None /\ name_of (w_fs w') (entry j (k_name k)) = src)).
+      { destruct src as [i0|] eqn:Hsrc.
+        - destruct (Hkey j i0 (or_introl eq_refl)) as [H|[H|H]]; [tauto|tauto|right; right; split; [discriminate|exact H]].
+        - destruct (Hkey j 0 (or_intror eq_refl)) as [Ha|[Ha|Ha]]; [tauto|tauto|].
+          destruct (Hkey j 1 (or_intror eq_refl)) as [Hb|[Hb|Hb]]; [tauto|tauto|]. rewrite Ha in Hb. discriminate. }
+      destruct Hb as [H|[H|(Hs & H)]].
+      + rewrite H. destruct (HI (k_name k) j Hn) as [H0|(i & Hi & Hin)]; [left; exact H0|right; exists i; split; [exact Hi|apply in_or_app; right; exact Hin]].
+      + left. exact H.
+      + right. destruct src as [i0|]; [|contradiction]. exists i0. split; [exact H|cbn; left; reflexivity].
+    - rewrite (upd_other al (k_name k) _ n Hne). destruct (Hoth n j Hn Hne) as [H|H]; [rewrite H; apply HI, Hn|left; exact H].
+  Qed.
+
+  Lemma sg_cache_get k a b : valid_name (k_name k) = true -> shard_ids (k_hash k) (k_sec k) nsh = (a, b) ->
+    wpv (sg_step dir nsh total k a b) (cache_get cfg k)
+        (fun r s' => match r with
+                     | Ok (Some fd) => s' = G1 (RFd fd) \/ exists r1, s' = G2 r1 (RFd fd)
+                     | _ => s' <> G0
+                     end) G0.
+  Proof.
+    intros Hk Hids. unfold cache_get. rewrite Hw, Hrd. cbn [f_get ro_get]. apply wpv_try.
+    eapply wpv_mono; [|apply (sg_sh_get dir nsh total k Hk a b Hids)].
+    intros [[fd|]|e|] s' H; try exact H.
+    all: try (unfold with_checked; rewrite Hck; cbn [try bind]; apply wpv_ret; exact H).
+    all: try (apply wpv_ret; exact H).
+  Qed.
+
+  Theorem stack_sharded_history_refines_map : forall ops os w al,
+    Forall ssop_wf ops -> names_plain (w_fs w) -> HInvS dir al (w_fs w) -> sshist ops os w al.
+  Proof.
+    induction ops as [|op ops IH]; intros os w al Hwf Hpl HI; [exact I|].
+    destruct os as [|o os]; [destruct op; exact I|].
+    inversion Hwf as [|? ? Hop Hrest]; subst.
+    destruct op as [how k v|k|k]; cbn [sshist ssop_wf] in *.
+    - destruct Hop as (Hk & Hv & Hout & Hnanc).
+      pose proof (ssh_write_step how k v w o al Hk Hv Hout Hnanc Hpl HI) as H. cbn zeta in H.
+      destruct (run (w_prog cfg how k v) w o) as [[[r w'] o'] tr]. destruct H as (Hnp & HI1).
+      apply IH; assumption.
+    - destruct (shard_ids (k_hash k) (k_sec k) nsh) as [a b] eqn:Hids.
+      pose proof (sharded_get_reads_gen dir nsh total k Hdir Hop a b (w_fs w) (cache_get cfg k) w o (sg_cache_get k a b Hop Hids) eq_refl Hpl) as H.
+      pose proof (run_names_plain (cache_get cfg k) w o Hpl) as Hnp.
+      destruct (run (cache_get cfg k) w o) as [[[r w'] o'] tr]. destruct H as (Hsame & Hhit).
+      split.
+      + intros fd Hr. destruct (Hhit fd Hr) as ([Hf|Hf] & Hne).
+        * destruct (HI (k_name k) a Hop) as [H0|(i & Hi & Hin)]; [rewrite Hf in Hne; contradiction|]. exists i. split; [rewrite Hf; exact Hi|exact Hin].
+        * destruct (HI (k_name k) b Hop) as [H0|(i & Hi & Hin)]; [rewrite Hf in Hne; contradiction|]. exists i. split; [rewrite Hf; exact Hi|exact Hin].
+      + apply IH; [exact Hrest|exact Hnp|]. intros n j Hn. rewrite Hsame. apply HI, Hn.
+    - pose proof (inert_run _ _ (rd_cache_touch cfg k) w o) as H.
+      pose proof (run_names_plain (cache_touch cfg k) w o Hpl) as Hnp.
+      destruct (run (cache_touch cfg k) w o) as [[[r w'] o'] tr]. destruct H as (Hsame & _).
+      apply IH; [exact Hrest|exact Hnp|]. intros n j Hn. rewrite Hsame. apply HI, Hn.
+  Qed.
+End StackShardedHistory.
